@@ -49,9 +49,21 @@ TARGETED = [
     ("free:truthy", "{{ 'a' if «m» else 'b' }}"), ("free:truthy", "{{ «m» | default: 'D' }}"), ("free:truthy", "{{ «m» | default: 'D', allow_false: true }}"),
     ("free:truthy", "{% if lst contains «m» %}t{% else %}f{% endif %}"), ("free:truthy", "{% assign v = «m» %}{% if v %}t{% else %}f{% endif %}"),
     ("free:truthy", "{% include 'q', q: «m» %}"), ("free:truthy", "{% render 'q', q: «m» %}"), ("free:truthy", "{% with q: «m» %}{% if q == nil %}t{% endif %}{% endwith %}"),
+    # a missing value in every argument position of the filters that take one (the same rule: whatever succeeds agrees)
+    *[("free:arg", "{{ " + lhs + " | " + f + " }}") for lhs, f in [
+        ("arr", "where: 'a', «m» | map: 't' | join: ','"), ("arr", "reject: 'a', «m» | map: 't' | join: ','"), ("arr", "find: 'a', «m» | json"),
+        ("arr", "find_index: 'a', «m»"), ("arr", "has: 'a', «m»"), ("arr", "where: «m» | map: 't' | join: ','"), ("arr", "map: «m» | join: ','"),
+        ("arr", "sort: «m» | map: 't' | join: ','"), ("arr", "sum: «m»"), ("arr", "uniq: «m» | map: 't' | join: ','"), ("arr", "compact: «m» | size"),
+        ("lst", "join: «m»"), ("lst", "concat: «m» | join: ','"), ("lst", "slice: 0, «m» | join: ','"), ("lst", "slice: «m» | join: ','"), ("lst", "index: «m»"),
+        ("'abc'", "default: «m»"), ("nil", "default: «m»"), ("'a,b'", "split: «m» | join: '|'"), ("'abcabc'", "replace: 'a', «m»"), ("'abcabc'", "replace: «m», 'x'"),
+        ("'abcabc'", "remove: «m»"), ("'abcdef'", "truncate: «m»"), ("'abcdef'", "truncate: 4, «m»"), ("'a b c'", "truncatewords: «m»"), ("'abcdef'", "slice: 1, «m»"),
+        ("2.567", "round: «m»"), ("5", "at_least: «m»"), ("5", "at_most: «m»"), ("5", "plus: «m»"), ("5", "times: «m»"), ("5", "divided_by: «m»"), ("5", "modulo: «m»"),
+        ("'2001-02-03'", "date: «m»"), ("'x'", "append: «m» | size"), ("'x'", "prepend: «m» | size"), ("'abc'", "default: 'D', allow_false: «m»"),
+    ]],
     ("filter-arg", "{{ 'a' | append: «m» }}"), ("filter-arg", "{{ lst | join: «m» }}"), ("filter-arg", "{{ 1 | plus: «m» }}"),
 ]
-BASE = {"d": {"a": {}, "x": 1, "n": None}, "lst": [1, 2, None], "x": 1, "nn": None}
+BASE = {"d": {"a": {}, "x": 1, "n": None}, "lst": [1, 2, None], "x": 1, "nn": None,
+        "arr": [{"a": True, "t": "p"}, {"a": False, "t": "q"}, {"a": None, "t": "r"}, {"t": "s"}, {"a": "v", "t": "u"}]}
 FLAGS = {"logical_not_operator": True, "logical_parentheses": True, "ternary_expressions": True}
 
 
@@ -64,7 +76,7 @@ def _cfg(case, undefined: str) -> dict:
 def evaluate(case) -> Verdict:
     v = Verdict()
     if case["kind"] == "targeted":
-        cls, shape = TARGETED[case["i"]]
+        cls, shape = ("free:arg", case["shape"]) if "shape" in case else TARGETED[case["i"]]  # (a shape spelled out: known-findings repros)
         src = shape.replace("«m»", case["m"])
         cfg = {"extra": True, "twice": False, "flags": FLAGS}
         env = envs.make_env(_cfg({"cfg": cfg}, "strict"), PARTIALS)
